@@ -28,7 +28,7 @@ func runC10b(c *Ctx) {
 	L.Rule("R-C10-LAYOUT", "page word layout and the bit fields of the meta word agree between their readers and writers", 8)
 	L.Rule("R-C10-NODESET", "node.set / moveRight / maxKey: position, shift, count and stores", 3)
 	L.Rule("R-C10-EXACT", "DeleteBelow is exact: the max key compact retains for routing stops answering when its value is below the threshold (finding F7); every DeleteBelow scans; a leaf answers with node.compact's count; every Reset wipes", 4)
-	L.Rule("R-C10-DESCEND", "Tree.set and Tree.get descend through the same slot; miss, claim, link and re-file conditions", 5)
+	L.Rule("R-C10-DESCEND", "Tree.set and Tree.get descend through the same slot; miss, claim, link and re-file conditions", 6)
 
 	ret1 := func(fn *ssa.Function) (string, bool) {
 		rs := returnsOf(fn)
@@ -405,6 +405,25 @@ func runC10b(c *Ctx) {
 		L.Check(len(problems) == 0, "R-C10-EXACT", "Tree.Reset#always", "every Reset wipes the pages, resets the buffer and re-creates the root, unconditionally", strings.Join(problems, "; "), fn.Pos())
 	})
 
+	c.Group("R-C10-DESCEND", "Tree.Set#from-root", func() {
+		// every insertion walks down from the root: t.set(1, k, v) on every path past the key-domain
+		// guard (a cached "last leaf" shortcut writes into a page DeleteBelow may have recycled meanwhile)
+		fn := P.Fn("z", "Tree", "Set")
+		L.Analysed(fname(fn))
+		tb := newTB(fn)
+		var walk []ssa.Instruction
+		for _, ci := range callsTo(fn, "z.Tree.set") {
+			if termStrings(termsOf(tb, ci.Common().Args)) == "p[0], c[1], p[1], p[2]" {
+				walk = append(walk, ci)
+			}
+		}
+		if len(walk) == 0 {
+			L.Fail("R-C10-DESCEND", "Tree.Set#from-root", "Tree.Set does not call t.set(1, k, v)", fn.Pos())
+			return
+		}
+		bad, path := reach(entryPos(fn), isReturn, isAnyInstr(walk), nil)
+		L.Check(bad == nil, "R-C10-DESCEND", "Tree.Set#from-root", "t.set(1, k, v) on every returning path", "a Set can return without descending from the root (block path "+pathString(path)+"): it writes through a remembered page that may have left the tree", instrPos(bad))
+	})
 	// ---- R-C10-DESCEND
 	c.Group("R-C10-DESCEND", "Tree.get", func() {
 		fn := P.Fn("z", "Tree", "get")
